@@ -25,6 +25,9 @@ RESOURCES = [
 ]
 
 
+_ENGINE_CACHE = None  # one engine per process: SQL is parsed once, tables are emptied per history
+
+
 class Discarded:
     """task manager that does not run fire-and-forget coroutines (records them)"""
 
@@ -294,7 +297,11 @@ class World:
         warnings.filterwarnings('ignore')
         loop = self.loop = self.loop or asyncio.get_event_loop()
         clock = loop.time
-        self.engine = Engine(seed=self.seed, clock=clock)
+        global _ENGINE_CACHE
+        if _ENGINE_CACHE is None:
+            _ENGINE_CACHE = Engine(seed=self.seed, clock=clock)
+        self.engine = _ENGINE_CACHE
+        self.engine.reset(seed=self.seed, clock=clock)
         seed_engine(self.engine, self.n_tokens, self.pools_cfg)
         aiomysql.ENGINE = self.engine
         _bs.seed_global_config()
